@@ -30,6 +30,33 @@ def run(chk: Check) -> None:
                  {"argv": runspace.argv_for(v, dry=False), "fresh": True}]
         scenarios.append(runspace.scenario_for(v, f"C04-{i}", steps))
 
+    # ---- manifests in every abstract state (Deps.tla) and unusual encodings: a dry run must leave them alone
+    import base64
+
+    from .. import manifests, tlc
+    from . import c14
+
+    dres = tlc.run_tlc(tlc.SPEC_DIR, "Deps", "Deps.cfg", dump=True)
+    chk.add_tlc(dres)
+    abstract = [st["m"] for st in dres.dump if st["st"] == "done" and all(s_ == "none" or manifests.CORPUS[k][s_] for k, s_ in st["m"].items())]
+    abstract.sort(key=lambda m: json.dumps(m, sort_keys=True))
+    chk.rng.shuffle(abstract)
+    dep_scn = []
+    for i, m in enumerate(abstract[: chk.pick(45, 500)]):
+        cm = c14.CODEMODS[i % 2]
+        files = {"app.py": cm["src"]}
+        for k, s_ in m.items():
+            if s_ != "none":
+                texts = manifests.CORPUS[k][s_]
+                files[k] = texts[(i // 2) % len(texts)].replace("{PKG}", cm["pkg"]).replace("{ALT}", cm["alt"])
+        if i % 9 == 0:  # a requirements file as `pip freeze >` writes it under PowerShell: UTF-16 with a BOM
+            files["requirements.txt"] = {"b64": base64.b64encode("requests==2.31.0\r\nflask>=2.0\r\n".encode("utf-16")).decode()}
+        argv = ["{dir}", "--output", "{out}", "--codemod-include", cm["id"]]
+        dep_scn.append({"id": f"C04-dep-{i}", "files": files, "_v": {"program": "deps", "layout": "lf", "manifest": ",".join(f"{k}={v}" for k, v in sorted(m.items()) if v != "none"),
+                                                                       "queue": [cm["id"]], "dryRun": True, "workers": 1},
+                        "steps": [{"argv": argv + ["--dry-run"], "keep_after": True}, {"argv": argv, "fresh": True}]})
+    scenarios += dep_scn
+
     def post(scn, res):
         v = scn["_v"]
         dry, real = res["steps"][0], res["steps"][1]
